@@ -7,7 +7,7 @@ Set Default Timeout 300.
 
 Lemma wf_nthZ l i x : forallb wf_shape l = true -> nthZ l i = Some x -> wf_shape x = true.
 Proof.
-  unfold nthZ. destruct (i <? 0)%Z; [discriminate|]. intros H E. rewrite forallb_forall in H. apply H.
+  unfold nthZ. destruct ((i <? 0) || (lenZ l <=? i))%Z; [discriminate|]. intros H E. rewrite forallb_forall in H. apply H.
   revert E. generalize (Z.to_nat i). clear. induction l as [|y l IH]; intros [|n] E; cbn [nth_opt] in E; try discriminate.
   - injection E as ->. left. reflexivity.
   - right. eapply IH. exact E.
